@@ -162,7 +162,12 @@ impl BytesMut {
     /// extend_from_slice
     #[inline]
     pub fn extend_from_slice(&mut self, extend: &[u8]) {
-        self.v.extend_from_slice(extend);
+        // element-wise (no memcpy), see put_u8
+        let mut i = 0;
+        while i < extend.len() {
+            self.v.push(extend[i]);
+            i += 1;
+        }
     }
 
     /// unsplit
@@ -213,6 +218,39 @@ impl Buf for BytesMut {
     fn copy_to_bytes(&mut self, len: usize) -> Bytes {
         self.split_to(len).freeze()
     }
+
+    #[inline]
+    fn get_u8(&mut self) -> u8 {
+        if self.len() < 1 {
+            crate::panic_advance(&TryGetError { requested: 1, available: 0 });
+        }
+        let r = self.v[self.off];
+        self.off += 1;
+        r
+    }
+
+    #[inline]
+    fn get_u16(&mut self) -> u16 {
+        let avail = self.len();
+        if avail < 2 {
+            crate::panic_advance(&TryGetError { requested: 2, available: avail });
+        }
+        let r = ((self.v[self.off] as u16) << 8) | (self.v[self.off + 1] as u16);
+        self.off += 2;
+        r
+    }
+
+    #[inline]
+    fn get_u32(&mut self) -> u32 {
+        let avail = self.len();
+        if avail < 4 {
+            crate::panic_advance(&TryGetError { requested: 4, available: avail });
+        }
+        let o = self.off;
+        let r = ((self.v[o] as u32) << 24) | ((self.v[o + 1] as u32) << 16) | ((self.v[o + 2] as u32) << 8) | (self.v[o + 3] as u32);
+        self.off += 4;
+        r
+    }
 }
 
 unsafe impl BufMut for BytesMut {
@@ -256,6 +294,26 @@ unsafe impl BufMut for BytesMut {
 
     fn put_slice(&mut self, src: &[u8]) {
         self.extend_from_slice(src);
+    }
+
+    // element-wise stores (no memcpy): constant bytes stay constant for CBMC
+    #[inline]
+    fn put_u8(&mut self, n: u8) {
+        self.v.push(n);
+    }
+
+    #[inline]
+    fn put_u16(&mut self, n: u16) {
+        self.v.push((n >> 8) as u8);
+        self.v.push(n as u8);
+    }
+
+    #[inline]
+    fn put_u32(&mut self, n: u32) {
+        self.v.push((n >> 24) as u8);
+        self.v.push((n >> 16) as u8);
+        self.v.push((n >> 8) as u8);
+        self.v.push(n as u8);
     }
 
     fn put_bytes(&mut self, val: u8, cnt: usize) {
